@@ -158,6 +158,7 @@ PROPS = {
         'trusted': ['sign packing (from_slice_non_optimized) and the plain iterator (BinaryQuantizedIterator::next, BinaryQuantized::iter / len) are proved by Verus for EVERY length (unit bq_pack); the Kani harnesses at lengths 1, 63, 64, 65 (quick) + 2, 7, 8, 9, 31, 33, 127, 128, 129 (thorough) remain as the end-to-end cross-check on the compiled code (bounded, not counted as proof)',
                     'unit bq_pack: std slice::chunks / iter().rev() / chunks_exact / u64::to_ne_bytes / from_ne_bytes are stand-ins with the std semantics (to_ne_bytes / from_ne_bytes as an uninterpreted bijection: no byte order is assumed); a float enters only through is_sign_positive (uninterpreted predicate) and through the value produced from one bit (stand-in pm_one_, whose arithmetic `bit as f32 * 2.0 - 1.0` is proved by the loop-free Kani harness bq_iterator_step_value over all u64 words); the constants 64 / 8 restated in the unit are proved equal to the real ones by Kani (bq_word_constants)',
                     'BinaryQuantized::len requires fewer than 2^61 stored bytes (no overflow of (len / 8) * 64)',
+                    'BinaryQuantized::from_bytes (unit bq_pack, all lengths): accepted iff the length is a multiple of 8, and then the vector is exactly those bytes; the transmute to the transparent wrapper is a stand-in (unsafe: trusted)',
                     'the SSE unpacking path to_vec_sse (intrinsics) is not verified; the plain iterator is (all lengths), to_vec_non_optimized = iter().collect() for 8 bytes (Kani)',
                     'NEON code is not compiled on this host'],
         'not_decided': ['cosine: the exact value h / (64*ceil(d/64)) needs sqrt and division on floats (not decided); decided: the xor/popcount dot product it is computed from, that the reported value is in [0, 1] for all header norms (thorough tier, ~4 min) and exactly 0 in the concrete case of finding F9 (d = 65)',
